@@ -141,7 +141,7 @@ int main(int argc, char** argv)
     C22 mon;
     return ps::Main(argc, argv, "C22", [] {
     ps::Opts o;
-    o.classes = {"N", "NY", "NL", "NQ", "C", "R", "PK", "M", "MC", "I", "T", "P"};
+    o.classes = {"N", "NY", "NL", "NQ", "C", "R", "RD", "PK", "M", "MC", "I", "T", "P"};
     o.guarded = true;
     o.fees = "h";
     o.child_fees = "h";
